@@ -313,10 +313,14 @@ CORPUS += [
     V("C08", "dpp-gen-keepout-not-closed", "rl4co/envs/eda/dpp/generator.py", 'available[i] = a.scatter(0, k, False)', 'available[i] = a', 'C08.f'),
     V("C08", "eq-dpp-gen-scatter-kw", "rl4co/envs/eda/dpp/generator.py", 'available.scatter_(1, probe, False)', 'available.scatter_(dim=1, index=probe, value=False)', None),
     V("C08", "flp-done-off-by-one", G_ + "flp/env.py", 'done = td["i"] >= (td["to_choose"] - 1)', 'done = td["i"] >= td["to_choose"]', "C08.a"),
-    V("C08", "mcp-done-strict", G_ + "mcp/env.py", 'done = td["i"] >= (td["n_sets_to_choose"] - 1)', 'done = td["i"] > (td["n_sets_to_choose"] - 1)', "C08.a"),
+    V("C08", "mcp-done-strict", G_ + "mcp/env.py", 'done = td["i"].reshape(batch_size, 1) >= (td["n_sets_to_choose"] - 1)', 'done = td["i"].reshape(batch_size, 1) > (td["n_sets_to_choose"] - 1)', "C08.a"),
     V("C08", "dpp-counter-double-increment", E_ + "dpp/env.py", '"i": td["i"] + 1,', '"i": td["i"] + 2,', "C08.a"),
     V("C08", "flp-mask-from-old-chosen", G_ + "flp/env.py", "        action_mask = ~chosen\n", '        action_mask = ~td["chosen"]\n', "C08.b"),
-    V("C08", "mcp-chosen-not-cloned-overwrite", G_ + "mcp/env.py", "chosen[torch.arange(batch_size).to(td.device), selected] = True", "chosen = torch.zeros_like(chosen); chosen[torch.arange(batch_size).to(td.device), selected] = True", "C08.b"),
+    V("C08", "mcp-chosen-not-cloned-overwrite", G_ + "mcp/env.py", "chosen[torch.arange(batch_size).to(td.device), selected] |= still_choosing", "chosen = torch.zeros_like(chosen); chosen[torch.arange(batch_size).to(td.device), selected] |= still_choosing", "C08.b"),
+    V("C08", "mcp-padding-steps-keep-selecting", G_ + "mcp/env.py", "chosen[torch.arange(batch_size).to(td.device), selected] |= still_choosing", "chosen[torch.arange(batch_size).to(td.device), selected] = True", "C08.h"),
+    V("C08", "flp-padding-steps-keep-selecting", G_ + "flp/env.py", "chosen[torch.arange(batch_size).to(td.device), selected] |= still_choosing", "chosen[torch.arange(batch_size).to(td.device), selected] = True", "C08.h"),
+    V("C08", "mcp-selection-frozen-for-running-rows", G_ + "mcp/env.py", 'still_choosing = ~td["done"].reshape(batch_size, -1)[:, 0]', 'still_choosing = td["done"].reshape(batch_size, -1)[:, 0]', "C08"),
+    V("C08", "eq-mcp-freeze-through-where", G_ + "mcp/env.py", "chosen[torch.arange(batch_size).to(td.device), selected] |= still_choosing", "chosen[torch.arange(batch_size).to(td.device), selected] = chosen[torch.arange(batch_size).to(td.device), selected] | still_choosing", None),
     V("C08", "dpp-mask-reopens", E_ + "dpp/env.py", '-1, current_node.unsqueeze(-1).expand_as(td["action_mask"]), 0\n', '-1, current_node.unsqueeze(-1).expand_as(td["action_mask"]), 1\n', "C08.b"),
     V("C08", "mdpp-probe-not-excluded", E_ + "mdpp/env.py", 'action_mask = torch.logical_and(td_reset["action_mask"], ~td_reset["probe"])', 'action_mask = td_reset["action_mask"]', "C08.c"),
     V("C08", "mdpp-probe-polarity", E_ + "mdpp/env.py", 'action_mask = torch.logical_and(td_reset["action_mask"], ~td_reset["probe"])', 'action_mask = torch.logical_and(td_reset["action_mask"], td_reset["probe"])', "C08.c"),
@@ -755,7 +759,7 @@ class PCTSPContext''', "C14.b"),
     V("C14", "mtsp-cur-node-squeeze-again", CTXF, '        cur_node_embedding = gather_by_index(embeddings, td["current_node"])\n        return cur_node_embedding\n', '        cur_node_embedding = gather_by_index(embeddings, td["current_node"])\n        return cur_node_embedding.squeeze()\n', "C14.b"),
     V("C14", "vrp-context-normalise-by-batch-max", CTXF, 'state_embedding = td["vehicle_capacity"] - td["used_capacity"]', 'state_embedding = (td["vehicle_capacity"] - td["used_capacity"]) / td["vehicle_capacity"].max()', "C14.a"),
     V("C14", "normalization-layer-over-batch", "rl4co/models/nn/ops.py", "x.mean((1, 2))", "x.mean((0, 1, 2))", "C14.c"),
-    V("C14", "attention-scale-by-batch-mean", "rl4co/models/nn/attention.py", "        # Compute inner multi-head attention with no projections\n        heads = self._inner_mha(query, key, value, attn_mask)", "        # Compute inner multi-head attention with no projections\n        heads = self._inner_mha(query, key, value, attn_mask)\n        heads = heads - heads.mean()", "C14.a"),
+    V("C14", "attention-scale-by-batch-mean", "rl4co/models/nn/attention.py", "        # Compute inner multi-head attention with no projections.\n        heads = self._inner_mha(query, key, value, attn_mask)", "        # Compute inner multi-head attention with no projections.\n        heads = self._inner_mha(query, key, value, attn_mask)\n        heads = heads - heads.mean()", "C14.a"),
     V("C14", "init-embedding-centres-on-batch-mean", "rl4co/models/nn/env_embeddings/init.py", '        out = self.init_embed(td["locs"])\n        return out', '        out = self.init_embed(td["locs"] - td["locs"].mean((0, 1), keepdim=True))\n        return out', "C14.a"),
     V("C14", "eq-context-rename", CTXF, "cur_node_embedding", "cur_emb", None, count=99),
 ]
@@ -1109,8 +1113,8 @@ CORPUS += [
 
 _FL = "rl4co/envs/graph/flp/env.py"
 CORPUS += [
-    V("C03", "flp-reward-rank-left-to-gather", _FL, "            .view(batch_size_, -1, n_points_)\n            .min(1)", "            .min(1)", "C03.e"),
-    V("C03", "eq-flp-reward-reshape", _FL, "            .view(batch_size_, -1, n_points_)\n            .min(1)", "            .reshape(batch_size_, -1, n_points_)\n            .min(dim=1)", None),
+    V("C03", "flp-reward-min-over-locations", _FL, "            .min(1)\n            .values.sum(-1)", "            .min(2)\n            .values.sum(-1)", "C03.e"),
+    V("C03", "eq-flp-reward-min-dim-keyword", _FL, "            .min(1)\n            .values.sum(-1)", "            .min(dim=1)\n            .values.sum(dim=-1)", None),
     V("C03", "mtsp-closing-leg-after-max-update", _MT,
       "        # At the step that finishes the instance, we add the distance from the current_node to the depot as well\n        current_length = torch.where(\n            done & ~was_done,\n            current_length + get_distance(cur_loc, depot_loc),\n            current_length,\n        )\n\n        # We update the max_subtour_length and reset the current_length\n        max_subtour_length = torch.where(\n            current_length > td[\"max_subtour_length\"],\n            current_length,\n            td[\"max_subtour_length\"],\n        )\n",
       "        # We update the max_subtour_length and reset the current_length\n        max_subtour_length = torch.where(\n            current_length > td[\"max_subtour_length\"],\n            current_length,\n            td[\"max_subtour_length\"],\n        )\n\n        current_length = torch.where(\n            done & ~was_done,\n            current_length + get_distance(cur_loc, depot_loc),\n            current_length,\n        )\n", "C03.d"),
